@@ -287,7 +287,8 @@ fn operand_in_domain_under(
                 numeric || matches!(ty, tast::Ty::TString)
             }
             OperandClass::Equality => match ty {
-                tast::Ty::TFunc { .. } | tast::Ty::TVec { .. } => false,
+                // what a trait object holds is not known where it is compared
+                tast::Ty::TFunc { .. } | tast::Ty::TVec { .. } | tast::Ty::TDyn { .. } => false,
                 tast::Ty::TTuple { typs } => {
                     return typs
                         .iter()
